@@ -1604,8 +1604,13 @@ func translateGetFromAPI(p *tr.Pkg, decls map[string]*ast.FuncDecl) apiInfo {
 			}
 			fail(p, x, "getFromAPI: unsupported if statement %s", render(p, x))
 		case *ast.SwitchStmt:
-			se, ok := x.Tag.(*ast.SelectorExpr)
-			if !ok || se.Sel.Name != "StatusCode" || x.Init != nil {
+			tagOK := false
+			if se, ok := x.Tag.(*ast.SelectorExpr); ok && se.Sel.Name == "StatusCode" {
+				tagOK = true
+			} else if id, ok := x.Tag.(*ast.Ident); ok && statusAlias[id.Name] {
+				tagOK = true
+			}
+			if !tagOK || (x.Init != nil && !isAliasInit(x.Init)) {
 				fail(p, x, "getFromAPI: switch on something other than the status code")
 			}
 			if sawOther {
